@@ -71,6 +71,7 @@ type FuncV struct {
 	Recv   Value            // bound receiver (method values of hooked types)
 	ID     int              // closure identity (allocation order), 0 for plain functions
 	Sig    *types.Signature // for opaque methods
+	Made   *types.Signature // reflect.MakeFunc result: the Go-visible signature; Fn is the body over []reflect.Value
 }
 
 func (f *FuncV) IsNil() bool { return f == nil || (f.Fn == nil && f.Native == "") }
